@@ -47,8 +47,50 @@ func WorkDir() string {
 	return os.TempDir()
 }
 
+// resource exhaustion of the (shared, possibly heavily loaded) machine kills Go
+// programs with a runtime "fatal error" and exit status 2; such a death says
+// nothing about the program under test.
+var exhaustionMarks = []string{
+	"failed to create new OS thread",
+	"runtime: out of memory",
+	"cannot allocate memory",
+	"resource temporarily unavailable",
+	"pthread_create failed",
+	"fork/exec",
+}
+
+// ResourceExhausted reports whether the process died because the machine ran
+// out of threads / memory (never a verdict: inconclusive).
+func (r Result) ResourceExhausted() bool {
+	if r.Exit == 0 {
+		return false
+	}
+	for _, m := range exhaustionMarks {
+		if bytes.Contains(r.Stderr, []byte(m)) {
+			return true
+		}
+	}
+	return r.Err != nil && r.Exit == -1 && !r.TimedOut
+}
+
+// Inconclusive is true when the result must not be used as a verdict.
+func (r Result) Inconclusive() bool { return r.TimedOut || r.ResourceExhausted() }
+
 // Cmd runs binary name (looked up with Bin unless it contains a slash) with args.
+// A run that dies of resource exhaustion is retried (up to 3 times, after a pause).
 func Cmd(o Opt, name string, args ...string) Result {
+	var r Result
+	for attempt := 0; attempt < 4; attempt++ {
+		r = cmdOnce(o, name, args...)
+		if !r.ResourceExhausted() {
+			return r
+		}
+		time.Sleep(time.Duration(attempt+1) * 500 * time.Millisecond)
+	}
+	return r
+}
+
+func cmdOnce(o Opt, name string, args ...string) Result {
 	if o.Timeout == 0 {
 		o.Timeout = 60 * time.Second
 	}
